@@ -1545,4 +1545,205 @@ theorem restart_data {s : State} (h : DataInv s) : DataInv (restart s).1 := by
   · intro v i sl' h1 hd
     rw [(hslot v i sl' h1).1] at hd; cases hd
 
+/-! ## migration -/
+
+theorem not_pending_of_holds {s : State} (hm : MetaOK s) {v i : Nat} {r : SectorId} (hh : holdsAt s.vols v i r)
+    (hs : ∀ p ∈ s.pending, p.v ≠ v) : ¬ isPending s r := by
+  rintro ⟨p, hp, e⟩
+  have hq := hm.pend p hp
+  rw [e] at hq
+  have h1 : located (clearAt s.vols v i) r = true := by
+    apply located_of_holdsAt (v := p.v) (i := p.i)
+    rw [clearAt_eq]
+    exact holdsAt_modVol_other _ _ hq (fun ⟨e1, _⟩ => hs p hp e1)
+  have := (located_clear hm.core hh r).mp h1
+  exact this.1 rfl
+
+/-- the metadata swap of a successful migration, target already holding a durable copy -/
+theorem move_data {s : State} (hm : MetaOK s) (h : DataInv s) {v i tv ti : Nat} {r : SectorId} {slt : Slot}
+    (hh : holdsAt s.vols v i r) (ht : slotAt s.vols tv ti = some slt) (hfree : slt.sec = none)
+    (hcont : slt.content = .dataOf r) (hdur : slt.durable = true) :
+    DataInv { s with vols := moveMeta s.vols v i tv ti r } := by
+  rw [moveMeta_eq hm.core hh]
+  obtain ⟨sl0, hs0, hsec0⟩ := hh
+  have hne : ¬ (tv = v ∧ ti = i) := by
+    intro ⟨e1, e2⟩
+    rw [e1, e2, hs0] at ht; cases ht
+    rw [hfree] at hsec0; cases hsec0
+  have ht' : slotAt (clearAt s.vols v i) tv ti = some slt := by
+    rw [clearAt_eq, slotAt_modVol]; simp [hne, ht]
+  have hslot : ∀ v' i' sl', slotAt (placeAt (clearAt s.vols v i) tv ti r) v' i' = some sl' →
+      (v' = tv ∧ i' = ti ∧ sl' = setSec (some r) slt) ∨
+      (v' = v ∧ i' = i ∧ sl'.sec = none ∧ sl'.durable = sl0.durable) ∨
+      slotAt s.vols v' i' = some sl' := by
+    intro v' i' sl' h1
+    rw [placeAt_eq] at h1
+    rcases slot_cases_modVol h1 with ⟨e1, e2, sl, h3, rfl⟩ | ⟨_, h3⟩
+    · rw [ht'] at h3; cases h3
+      exact Or.inl ⟨e1, e2, rfl⟩
+    · rw [clearAt_eq] at h3
+      rcases slot_cases_modVol h3 with ⟨e1, e2, sl, h4, rfl⟩ | ⟨_, h4⟩
+      · rw [hs0] at h4; cases h4
+        exact Or.inr (Or.inl ⟨e1, e2, rfl, rfl⟩)
+      · exact Or.inr (Or.inr h4)
+  have hcnt : ∀ r', cnt (placeAt (clearAt s.vols v i) tv ti r) r' = cnt s.vols r' := by
+    intro r'
+    have hn' : ((clearAt s.vols v i).map (·.id)).Nodup := by
+      rw [clearAt_eq, updVol_ids _ _ _ (modVol_id _ _ _)]; exact hm.core.ids
+    rw [cnt_placeAt hn' ht' hfree]
+    have := cnt_clearAt hm.core.ids ⟨sl0, hs0, hsec0⟩ r'
+    omega
+  have hloc : ∀ r', located (placeAt (clearAt s.vols v i) tv ti r) r' = located s.vols r' := fun r' => located_eq_of_cnt (hcnt r')
+  refine ⟨?_, ?_, ?_, ?_, h.freshRec, h.cacheGood, ?_, ?_, h.pendW⟩
+  · intro v' i' sl' r' h1 h2
+    rcases hslot v' i' sl' h1 with ⟨_, _, rfl⟩ | ⟨_, _, e, _⟩ | h3
+    · right
+      have : r' = r := by simpa [setSec] using h2.symm
+      rw [this]; exact hcont
+    · rw [e] at h2; cases h2
+    · exact h.slotData v' i' sl' r' h3 h2
+  · intro v' i' sl' r' h1 h2 hd
+    rcases hslot v' i' sl' h1 with ⟨_, _, rfl⟩ | ⟨_, _, e, _⟩ | h3
+    · simp [setSec, hdur] at hd
+    · rw [e] at h2; cases h2
+    · exact h.slotDur v' i' sl' r' h3 h2 hd
+  · intro r' hr
+    rcases h.refSafe r' hr with h1 | ⟨h1, h2, h3⟩
+    · exact Or.inl h1
+    · exact Or.inr ⟨by rw [hloc]; exact h1, h2, h3⟩
+  · intro r' hr
+    obtain ⟨h1, h3⟩ := h.freshSafe r' hr
+    exact ⟨by rw [hloc]; exact h1, h3⟩
+  · intro r' hr
+    rw [hloc] at hr; exact h.locStored r' hr
+  · intro v' i' sl' h1 hd
+    rcases hslot v' i' sl' h1 with ⟨_, _, rfl⟩ | ⟨e1, e2, _, e4⟩ | h3
+    · simp [setSec, hdur] at hd
+    · rw [e1, e2]; exact h.dirtyChanged v i sl0 hs0 (e4 ▸ hd)
+    · exact h.dirtyChanged v' i' sl' h3 hd
+
+theorem moveOne_data {s : State} (hm : MetaOK s) (h : DataInv s) {v i : Nat} {r : SectorId} (mv : Move) (hh : holdsAt s.vols v i r)
+    (ht : ∃ sl, slotAt s.vols mv.toV mv.toI = some sl ∧ sl.sec = none) (hs : ∀ p ∈ s.pending, p.v ≠ v) :
+    DataInv (moveOne s v i r mv).1 := by
+  have hnp := not_pending_of_holds hm hh hs
+  simp only [moveOne]
+  split
+  · exact h
+  split
+  · exact h
+  rename_i sl0 hsl0
+  obtain ⟨sl0', hs0', hsec0⟩ := hh
+  have e0 : slotAt s.vols v i = some sl0 := hsl0
+  rw [e0] at hs0'; cases hs0'
+  have hcont := content_of_holds h e0 hsec0 hnp
+  have hne : ¬ (sl0.content ≠ Content.dataOf r) := fun x => x hcont
+  simp only [hne, if_false]
+  -- after readLocation + WriteSector + Sync
+  have hsk : (syncVol mv.toV (modSlot mv.toV mv.toI (fun x => { x with content := sl0.content, durable := false }) s.vols)).map skel
+      = s.vols.map skel := by
+    rw [syncVol_skel, modSlot_skel mv.toV mv.toI (fun x => { x with content := sl0.content, durable := false }) (fun _ => rfl)]
+  obtain ⟨slt, hslt, hfree⟩ := ht
+  have h2 : DataInv { s with
+      vols := syncVol mv.toV (modSlot mv.toV mv.toI (fun x => { x with content := sl0.content, durable := false }) s.vols)
+      heap := s.heap ++ [sl0.content]
+      cache := cacheAdd s.cacheSize r s.heap.length s.cache } := by
+    apply dataInv_slots h
+    · intro v' i' sl' h1
+      rw [slotAt_syncVol] at h1
+      have inner : ∀ sl'', slotAt (modSlot mv.toV mv.toI (fun x => { x with content := sl0.content, durable := false }) s.vols) v' i' = some sl'' →
+          (v' = mv.toV ∧ sl''.sec = none) ∨ slotAt s.vols v' i' = some sl'' := by
+        intro sl'' h3
+        rw [modSlot_eq] at h3
+        rcases slot_cases_modVol h3 with ⟨e1, e2, sl, h4, rfl⟩ | ⟨_, h4⟩
+        · rw [hslt] at h4; cases h4
+          exact Or.inl ⟨e1, hfree⟩
+        · exact Or.inr h4
+      by_cases e : v' = mv.toV
+      · simp only [e, if_true] at h1
+        cases h3 : slotAt (modSlot mv.toV mv.toI (fun x => { x with content := sl0.content, durable := false }) s.vols) mv.toV i' with
+        | none => rw [h3] at h1; cases h1
+        | some sl'' =>
+          rw [h3] at h1; simp at h1; subst h1
+          rcases inner sl'' (e ▸ h3) with ⟨_, h4⟩ | h4
+          · exact Or.inl ⟨h4, rfl⟩
+          · exact Or.inr ⟨sl'', h4, Or.inr ⟨rfl, rfl⟩, fun x => by simp at x⟩
+      · simp only [e, if_false] at h1
+        rcases inner sl' h1 with ⟨e', _⟩ | h4
+        · exact absurd e' e
+        · exact same_slot h4
+    · intro r' hr; rw [located_of_skel hsk] at hr; exact hr
+    · intro r' hr; left; rw [located_of_skel hsk]; exact hr
+    · rfl
+    · rfl
+    · intro _ hx; exact hx
+    · intro x; rfl
+    · intro _ hx; exact hx
+    · intro _ hx; exact hx
+    · intro e he
+      rcases mem_cacheAdd he with rfl | he
+      · show (s.heap ++ [sl0.content])[s.heap.length]? = _
+        simp [hcont]
+      · exact heap_append_get (h.cacheGood e he)
+    · intro _ hx; exact hx
+    · intro _ hx; exact hx
+  split
+  · exact h2
+  -- the swap
+  have hm2 : MetaOK { s with
+      vols := syncVol mv.toV (modSlot mv.toV mv.toI (fun x => { x with content := sl0.content, durable := false }) s.vols)
+      heap := s.heap ++ [sl0.content]
+      cache := cacheAdd s.cacheSize r s.heap.length s.cache } :=
+    metaOK_skel hm hsk rfl rfl rfl rfl (fun _ hp => hp) hm.pendR (fun _ hx => hx)
+  have hh2 := holdsAt_of_skel hsk (⟨sl0, e0, hsec0⟩ : holdsAt s.vols v i r)
+  have ht2 : slotAt (syncVol mv.toV (modSlot mv.toV mv.toI (fun x => { x with content := sl0.content, durable := false }) s.vols)) mv.toV mv.toI
+      = some { slt with content := sl0.content, durable := true } := by
+    rw [slotAt_syncVol, modSlot_eq, slotAt_modVol]
+    simp [hslt]
+  exact move_data hm2 h2 hh2 ht2 hfree hcont rfl
+
+theorem migrateGo_data {v start : Nat} (moves : List Move) : ∀ {s : State} (cursor nOk nFail : Nat), MetaOK s → DataInv s →
+    (∀ p ∈ s.pending, p.v ≠ v) → DataInv (migrateGo s v start cursor nOk nFail moves).1 := by
+  induction moves with
+  | nil =>
+    intro s cursor nOk nFail _ h _
+    simp only [migrateGo]
+    split
+    · exact h
+    split
+    · exact h
+    split <;> exact h
+  | cons mv rest ih =>
+    intro s cursor nOk nFail hm h hs
+    simp only [migrateGo]
+    split
+    · exact h
+    rename_i vol hv
+    split
+    · exact h
+    rename_i i r hn
+    split
+    · exact h
+    split
+    · exact h
+    rename_i hvalid
+    obtain ⟨_, sl, hsl, hsec⟩ := nextOcc_spec hn
+    have hh : holdsAt s.vols v i r := ⟨sl, by simpa [slotAt, hv] using hsl, hsec⟩
+    have ht := validTo_slot (by simpa using hvalid)
+    have hm' := moveOne_ok hm mv hh ht hs
+    have hd' := moveOne_data hm h mv hh ht hs
+    have hp := moveOne_pending s v i r mv
+    generalize hmo : moveOne s v i r mv = res at hm' hd' hp
+    obtain ⟨s', ok⟩ := res
+    simp only at hm' hd' hp ⊢
+    split
+    · exact hd'
+    split
+    · split
+      · exact hd'
+      · exact ih _ _ _ hm' hd' (by rw [hp]; exact hs)
+    · exact ih _ _ _ hm' hd' (by rw [hp]; exact hs)
+
+theorem migrate_data {s : State} (hm : MetaOK s) (h : DataInv s) (v start : Nat) (moves : List Move) (hs : ∀ p ∈ s.pending, p.v ≠ v) :
+    DataInv (migrate s v start moves).1 := migrateGo_data moves _ _ _ hm h hs
+
 end Hostd.Props.C02
